@@ -21,6 +21,8 @@ func init() {
 			"custom Metadata implementations supplied through SetMetadata are out of scope",
 		},
 		Rules: []RuleDef{
+			{ID: "C01.R23", Text: "no acknowledgement carries the checkpoint past an event the consumer never saw: a document or system event outside the announced snapshot stops the client instead of being dropped (same rule as C06.R2)", Run: c06r2},
+			{ID: "C01.R22", Text: "a failed save forgets nothing: the dirty marks and the save flag are cleared only after, and only under err==nil of, the store call (same rules as C05.R3 and C05.R4)", Run: func(c *Ctx, id string) { c05r3(c, id); c05r4(c, id) }},
 			{ID: "C01.R1", Text: "the position map is mutated only by the position writer (Store of its own parameters) and assigned only from Checkpoint.Load()#0 or a fresh empty map", Run: c01r1},
 			{ID: "C01.R2", Text: "every call of the position writer is an Ack closure, a metadata-key absorption or a non-document-event absorption; the library never calls ListenerContext.Ack/Commit", Run: c01r2},
 			{ID: "C01.R3", Text: "callers of the position writer / forwarder pass the vbID and offset of the same event value they handle", Run: c01r3},
